@@ -77,7 +77,8 @@ namespace Givaro {
             //                     (n)<BOUNDARY_2_isprime ? isprime_Tabule2(n) :
             //                     probab_prime(n));
             int64_t l;
-            return int32_t (int32_t(GIVARO_ISLT(n,BOUNDARY_isprime) ?  isprime_Tabule((int32_t)convert(l,n)):
+            return int32_t (int32_t(GIVARO_ISLT(n,2) ? 0 :
+                                    GIVARO_ISLT(n,BOUNDARY_isprime) ?  isprime_Tabule((int32_t)convert(l,n)):
                                     GIVARO_ISLT(n,BOUNDARY_2_isprime) ? isprime_Tabule2((int32_t)convert(l,n)):
                                     local_prime(n,r)));
         }
